@@ -27,24 +27,32 @@ type kernelCfg struct {
 	v6    bool
 	rule  []string // iptables/ip6tables arguments appended after -A OUTPUT (C10)
 	flood bool     // C09
+	// sysctl (C10): set in the source host before the judged run; cause = the text the error must still contain
+	sysctl string
+	cause  string
 }
 
 func kernelConfigs(prop, tier string) []kernelCfg {
 	var cfgs []kernelCfg
 	if prop == "C10" {
 		cfgs = []kernelCfg{
-			{prop, "icmp-every-send", []string{"-P", "icmp"}, false, []string{"-p", "icmp", "--icmp-type", "echo-request", "-j", "DROP"}, false},
-			{prop, "udp-ttl3-send", []string{"-P", "udp"}, false, []string{"-p", "udp", "-m", "ttl", "--ttl-eq", "3", "-j", "DROP"}, false},
-			{prop, "tcp-syn-ttl2-send", []string{"-P", "tcp", "-p", "8080", "--tcp-method", "syn"}, false, []string{"-p", "tcp", "--dport", "8080", "-m", "ttl", "--ttl-eq", "2", "-j", "DROP"}, false},
+			{prop, "icmp-every-send", []string{"-P", "icmp"}, false, []string{"-p", "icmp", "--icmp-type", "echo-request", "-j", "DROP"}, false, "", ""},
+			{prop, "udp-ttl3-send", []string{"-P", "udp"}, false, []string{"-p", "udp", "-m", "ttl", "--ttl-eq", "3", "-j", "DROP"}, false, "", ""},
+			{prop, "tcp-syn-ttl2-send", []string{"-P", "tcp", "-p", "8080", "--tcp-method", "syn"}, false, []string{"-p", "tcp", "--dport", "8080", "-m", "ttl", "--ttl-eq", "2", "-j", "DROP"}, false, "", ""},
 		}
+		// the kernel refuses SO_ATTACH_FILTER on the capture socket (socket option memory exhausted): installing the
+		// capture filter fails inside the real attach path
+		cfgs = append(cfgs,
+			kernelCfg{prop: prop, name: "udp-filter-attach-refused", args: []string{"-P", "udp"}, sysctl: "net.core.optmem_max=1", cause: "cannot allocate memory"},
+			kernelCfg{prop: prop, name: "tcp-sack-filter-attach-refused", args: []string{"-P", "tcp", "-p", "8080", "--tcp-method", "sack"}, sysctl: "net.core.optmem_max=1", cause: "cannot allocate memory"})
 		if tier == "thorough" {
 			cfgs = append(cfgs,
-				kernelCfg{prop, "icmp-ttl2-send", []string{"-P", "icmp"}, false, []string{"-p", "icmp", "-m", "ttl", "--ttl-eq", "2", "-j", "DROP"}, false},
-				kernelCfg{prop, "udp-every-send", []string{"-P", "udp"}, false, []string{"-p", "udp", "--dport", "33434", "-j", "DROP"}, false},
-				kernelCfg{prop, "udp6-hl3-send", []string{"-P", "udp"}, true, []string{"-p", "udp", "-m", "hl", "--hl-eq", "3", "-j", "DROP"}, false},
-				kernelCfg{prop, "icmp6-every-send", []string{"-P", "icmp"}, true, []string{"-p", "ipv6-icmp", "--icmpv6-type", "echo-request", "-j", "DROP"}, false},
-				kernelCfg{prop, "tcp-syn-every-send", []string{"-P", "tcp", "-p", "8080", "--tcp-method", "syn"}, false, []string{"-p", "tcp", "--dport", "8080", "-j", "DROP"}, false},
-				kernelCfg{prop, "udp-multi-ttl3-send", []string{"-P", "udp", "-q", "3", "-Q", "2"}, false, []string{"-p", "udp", "-m", "ttl", "--ttl-eq", "3", "-j", "DROP"}, false},
+				kernelCfg{prop, "icmp-ttl2-send", []string{"-P", "icmp"}, false, []string{"-p", "icmp", "-m", "ttl", "--ttl-eq", "2", "-j", "DROP"}, false, "", ""},
+				kernelCfg{prop, "udp-every-send", []string{"-P", "udp"}, false, []string{"-p", "udp", "--dport", "33434", "-j", "DROP"}, false, "", ""},
+				kernelCfg{prop, "udp6-hl3-send", []string{"-P", "udp"}, true, []string{"-p", "udp", "-m", "hl", "--hl-eq", "3", "-j", "DROP"}, false, "", ""},
+				kernelCfg{prop, "icmp6-every-send", []string{"-P", "icmp"}, true, []string{"-p", "ipv6-icmp", "--icmpv6-type", "echo-request", "-j", "DROP"}, false, "", ""},
+				kernelCfg{prop, "tcp-syn-every-send", []string{"-P", "tcp", "-p", "8080", "--tcp-method", "syn"}, false, []string{"-p", "tcp", "--dport", "8080", "-j", "DROP"}, false, "", ""},
+				kernelCfg{prop, "udp-multi-ttl3-send", []string{"-P", "udp", "-q", "3", "-Q", "2"}, false, []string{"-p", "udp", "-m", "ttl", "--ttl-eq", "3", "-j", "DROP"}, false, "", ""},
 			)
 		}
 		return cfgs
@@ -53,31 +61,31 @@ func kernelConfigs(prop, tier string) []kernelCfg {
 		// the CLI built with the race detector, on real sockets: sender, receiver and the closing of the AF_PACKET source
 		// and the raw sink run on the real scheduler, several runs and end-to-end probes per process
 		cfgs = []kernelCfg{
-			{prop, "race-cli-icmp", []string{"-P", "icmp", "-q", "4", "-Q", "3"}, false, nil, false},
-			{prop, "race-cli-udp", []string{"-P", "udp", "-q", "3", "-Q", "3"}, false, nil, false},
-			{prop, "race-cli-tcp-sack", []string{"-P", "tcp", "-p", "8080", "--tcp-method", "sack", "-q", "3", "-Q", "2"}, false, nil, false},
+			{prop, "race-cli-icmp", []string{"-P", "icmp", "-q", "4", "-Q", "3"}, false, nil, false, "", ""},
+			{prop, "race-cli-udp", []string{"-P", "udp", "-q", "3", "-Q", "3"}, false, nil, false, "", ""},
+			{prop, "race-cli-tcp-sack", []string{"-P", "tcp", "-p", "8080", "--tcp-method", "sack", "-q", "3", "-Q", "2"}, false, nil, false, "", ""},
 		}
 		if tier == "thorough" {
 			cfgs = append(cfgs,
-				kernelCfg{prop, "race-cli-tcp-syn", []string{"-P", "tcp", "-p", "8080", "--tcp-method", "syn", "-q", "3", "-Q", "3"}, false, nil, false},
-				kernelCfg{prop, "race-cli-tcp-prefer-sack-closed", []string{"-P", "tcp", "-p", "8099", "--tcp-method", "prefer_sack", "-q", "3", "-Q", "2"}, false, nil, false},
-				kernelCfg{prop, "race-cli-icmp6", []string{"-P", "icmp", "-q", "4", "-Q", "3"}, true, nil, false},
-				kernelCfg{prop, "race-cli-udp6", []string{"-P", "udp", "-q", "3", "-Q", "3"}, true, nil, false},
+				kernelCfg{prop, "race-cli-tcp-syn", []string{"-P", "tcp", "-p", "8080", "--tcp-method", "syn", "-q", "3", "-Q", "3"}, false, nil, false, "", ""},
+				kernelCfg{prop, "race-cli-tcp-prefer-sack-closed", []string{"-P", "tcp", "-p", "8099", "--tcp-method", "prefer_sack", "-q", "3", "-Q", "2"}, false, nil, false, "", ""},
+				kernelCfg{prop, "race-cli-icmp6", []string{"-P", "icmp", "-q", "4", "-Q", "3"}, true, nil, false, "", ""},
+				kernelCfg{prop, "race-cli-udp6", []string{"-P", "udp", "-q", "3", "-Q", "3"}, true, nil, false, "", ""},
 			)
 		}
 		return cfgs
 	}
 	cfgs = []kernelCfg{
-		{prop, "icmp-flood", []string{"-P", "icmp"}, false, nil, true},
-		{prop, "udp-flood", []string{"-P", "udp"}, false, nil, true},
-		{prop, "tcp-sack-flood", []string{"-P", "tcp", "-p", "8080", "--tcp-method", "sack"}, false, nil, true},
+		{prop, "icmp-flood", []string{"-P", "icmp"}, false, nil, true, "", ""},
+		{prop, "udp-flood", []string{"-P", "udp"}, false, nil, true, "", ""},
+		{prop, "tcp-sack-flood", []string{"-P", "tcp", "-p", "8080", "--tcp-method", "sack"}, false, nil, true, "", ""},
 	}
 	if tier == "thorough" {
 		cfgs = append(cfgs,
-			kernelCfg{prop, "tcp-syn-flood", []string{"-P", "tcp", "-p", "8080", "--tcp-method", "syn"}, false, nil, true},
-			kernelCfg{prop, "icmp6-flood", []string{"-P", "icmp"}, true, nil, true},
-			kernelCfg{prop, "udp6-flood", []string{"-P", "udp"}, true, nil, true},
-			kernelCfg{prop, "icmp-multi-flood", []string{"-P", "icmp", "-q", "3", "-Q", "2"}, false, nil, true},
+			kernelCfg{prop, "tcp-syn-flood", []string{"-P", "tcp", "-p", "8080", "--tcp-method", "syn"}, false, nil, true, "", ""},
+			kernelCfg{prop, "icmp6-flood", []string{"-P", "icmp"}, true, nil, true, "", ""},
+			kernelCfg{prop, "udp6-flood", []string{"-P", "udp"}, true, nil, true, "", ""},
+			kernelCfg{prop, "icmp-multi-flood", []string{"-P", "icmp", "-q", "3", "-Q", "2"}, false, nil, true, "", ""},
 		)
 	}
 	return cfgs
@@ -326,7 +334,14 @@ func runKernelCfg(tag string, cfg kernelCfg) (out kernelOutcome) {
 		if cfg.v6 {
 			ipt = "ip6tables"
 		}
-		if _, err := run(append([]string{"ip", "netns", "exec", l.ns[0], ipt, "-A", "OUTPUT"}, cfg.rule...)...); err != nil {
+		cause := "operation not permitted"
+		if cfg.sysctl != "" {
+			cause = cfg.cause
+			if _, err := run("ip", "netns", "exec", l.ns[0], "sysctl", "-qw", cfg.sysctl); err != nil {
+				out.inconclusive = "cannot set " + cfg.sysctl + ": " + err.Error()
+				return
+			}
+		} else if _, err := run(append([]string{"ip", "netns", "exec", l.ns[0], ipt, "-A", "OUTPUT"}, cfg.rule...)...); err != nil {
 			out.inconclusive = "cannot install the packet filter rule: " + err.Error()
 			return
 		}
@@ -337,14 +352,14 @@ func runKernelCfg(tag string, cfg kernelCfg) (out kernelOutcome) {
 		case o.err == "WATCHDOG":
 			out.inconclusive = "CLI watchdog fired"
 		case o.err == "":
-			out.violations = append(out.violations, [3]string{"fault-swallowed/kernel/" + cfg.name, "the kernel refused to send a probe (sendto: operation not permitted) but the command succeeded and printed a path", o.raw})
+			out.violations = append(out.violations, [3]string{"fault-swallowed/kernel/" + cfg.name, "the kernel refused the operation (" + cause + ") but the command succeeded and printed a path", o.raw})
 		case strings.Contains(o.raw, "\"hops\""):
 			out.violations = append(out.violations, [3]string{"result-and-error/kernel/" + cfg.name, "the command failed and still printed a result", o.raw})
-		case !strings.Contains(o.err, "operation not permitted"):
-			out.violations = append(out.violations, [3]string{"cause-lost/kernel/" + cfg.name, "the error message no longer names the cause (operation not permitted): " + o.err, o.raw})
+		case !strings.Contains(o.err, cause):
+			out.violations = append(out.violations, [3]string{"cause-lost/kernel/" + cfg.name, "the error message no longer names the cause (" + cause + "): " + o.err, o.raw})
 		default:
 			out.nontrivial = append(out.nontrivial, "kernel/"+cfg.name+"/fatal")
-			out.sample = map[string]any{"case": cfg.prop + "/kernel/" + cfg.name, "rule": strings.Join(cfg.rule, " "), "cli_error": o.err}
+			out.sample = map[string]any{"case": cfg.prop + "/kernel/" + cfg.name, "rule": strings.Join(cfg.rule, " ") + cfg.sysctl, "cli_error": o.err}
 		}
 		return
 	}
